@@ -13,6 +13,7 @@ import (
 	"github.com/douban/gobeansdb/config"
 	"github.com/douban/gobeansdb/loghub"
 	"github.com/douban/gobeansdb/utils"
+	"github.com/douban/gobeansdb/verifhook"
 )
 
 var (
@@ -312,6 +313,7 @@ func (store *HStore) GC(bucketID, beginChunkID, endChunkID, noGCDays int, merge,
 		return
 	}
 
+	verifhook.Point("gc.request.checked", bucketID, begin, end)
 	go store.gcMgr.gc(bkt, begin, end, merge)
 	return
 }
